@@ -164,6 +164,8 @@ func cmdCheck(args []string) int {
 	verbose := fs.Bool("v", false, "verbose")
 	fs.BoolVar(&debugEngine, "debug", false, "crash on engine errors")
 	fs.BoolVar(&progress, "progress", false, "print every path")
+	fs.BoolVar(&traceBranches, "tracebranches", false, "print symbolic branch decisions")
+	pfxFlag := fs.String("prefix", "", "start from this decision prefix (comma separated)")
 	cpuprof := fs.String("cpuprofile", "", "write cpu profile")
 	fs.BoolVar(&debugSolver, "debugsolver", false, "print solver errors")
 	if len(args) < 2 {
@@ -173,6 +175,12 @@ func cmdCheck(args []string) int {
 	_ = fs.Parse(args[2:])
 	if tier != "quick" && tier != "thorough" {
 		usage()
+	}
+	if *pfxFlag != "" {
+		for _, x := range strings.Split(*pfxFlag, ",") {
+			v, _ := strconv.Atoi(x)
+			startPrefix = append(startPrefix, v)
+		}
 	}
 	if *cpuprof != "" {
 		f, _ := os.Create(*cpuprof)
